@@ -9,11 +9,13 @@ variable {σ : Type}
 
 /-! ### bookkeeping over the observation log -/
 
-/-- keys handed to handlers that returned, and dropped keys, in event order -/
+/-- keys handed to handlers that returned, dropped keys, and keys pushed back to the front of
+    the input queue because the application was done (typeahead), in event order -/
 def delivered : List Obs → List KP
   | [] => []
   | .call _ seq _ :: r => seq ++ delivered r
   | .drop k :: r => k :: delivered r
+  | .requeue ks :: r => ks ++ delivered r
   | _ :: r => delivered r
 
 /-- the key presses (not `_Flush`) taken from the input queue, in event order -/
@@ -141,12 +143,27 @@ theorem runLoop_conserv (I : Iface σ) (n : Nat) (ps : PS σ) (flush : Bool) :
       refine ⟨he.1, he.2.1, ?_⟩
       cases h : hasRaise (examine I ps flush).2.1 <;> simp_all
     · have ih' := ih (examine I ps flush).1 false
-      simp [hc] at he ⊢
-      refine ⟨?_, ?_, ?_⟩
-      · rw [delivered_append, List.append_assoc, ih'.1, he.1]
-      · rw [popped_append, he.2.1, ih'.2.1]; rfl
-      · rw [hasRaise_append, ih'.2.2]
-        cases h : hasRaise (examine I ps flush).2.1 <;> simp_all
+      have hr : hasRaise (examine I ps flush).2.1 = false := by
+        cases h : hasRaise (examine I ps flush).2.1
+        · rfl
+        · have := he.2.2.mp h; rw [hc] at this; cases this
+      simp only [hc]
+      by_cases hq : (!(examine I ps flush).1.buffer.isEmpty && I.done (examine I ps flush).1.w) = true
+      · simp only [hq, if_true]
+        refine ⟨?_, ?_, ?_⟩
+        · rw [delivered_append]
+          simp only [delivered, List.append_nil]
+          exact he.1
+        · rw [popped_append, he.2.1]; rfl
+        · rw [hasRaise_append, hr]; rfl
+      · simp only [hq]
+        refine ⟨?_, ?_, ?_⟩
+        · simp only [Bool.false_eq_true, if_false]
+          rw [delivered_append, List.append_assoc, ih'.1, he.1]
+        · simp only [Bool.false_eq_true, if_false]
+          rw [popped_append, he.2.1, ih'.2.1]; rfl
+        · simp only [Bool.false_eq_true, if_false]
+          rw [hasRaise_append, ih'.2.2, hr]; rfl
     · simp [hc] at he ⊢
       exact ⟨he.1, he.2.1, he.2.2⟩
 
@@ -214,9 +231,10 @@ theorem pkStep_conserv (I : Iface σ) (ps ps' : PS σ) (obs : List Obs) (raised 
 
 /-- **Conservation** for a whole `process_keys()` call, for any number of loop iterations,
     any key-binding object, any filters and any handlers (they may feed keys, flip conditions,
-    change bindings): the keys delivered to handlers and the dropped keys, in the order of
-    the events, followed by the keys still pending in the key buffer, are exactly the keys that
-    were pending before followed by the keys taken from the input queue, in that order.
+    change bindings, finish the application): the keys delivered to handlers, the dropped keys
+    and the keys pushed back to the input queue as typeahead, in the order of the events,
+    followed by the keys still pending in the key buffer, are exactly the keys that were pending
+    before followed by the keys taken from the input queue, in that order.
     If a handler raised, the undelivered rest (`lost`) is discarded by the reset. -/
 theorem conservation (I : Iface σ) (n : Nat) (ps : PS σ) :
     hasRaise (processKeys I n ps).2.1 = (processKeys I n ps).2.2 ∧
@@ -297,7 +315,10 @@ theorem raise_only_from_handler (I : Iface σ) (n : Nat) (ps : PS σ)
       have := hexec { ps with w := (decideOf I ps f).1 } (decideOf I ps f).2
       cases hc : (examine I ps f).2.2
       · rfl
-      · simp [ih]
+      · simp only []
+        split
+        · rfl
+        · exact ih _ _
       · exact absurd hc this
   have hsend : ∀ (ps : PS σ) kp, (send I ps kp).2.2 = false := by
     intro ps kp; cases kp <;> simp [send, hloop]
@@ -376,7 +397,7 @@ theorem taken_append (a b : List Obs) : taken (a ++ b) = taken a ++ taken b := b
   | cons x xs ih => cases x <;> simp [taken, ih]
 
 section
-variable (I : Iface σ) (hq : ∀ w q b s p, (I.call w q b s p).2.1 = q)
+variable (I : Iface σ) (hq : ∀ w q b s p, (I.call w q b s p).2.1 = q) (hd : ∀ w, I.done w = false)
 include hq
 
 theorem callHandler_queue (ps : PS σ) (b : Binding) (seq : List KP) :
@@ -395,6 +416,7 @@ theorem exec_queue (ps : PS σ) (d : Decision) :
     simp only [exec]
     split <;> simp [this]
 
+include hd in
 theorem runLoop_queue (n : Nat) (ps : PS σ) (f : Bool) :
     (runLoop I n ps f).1.queue = ps.queue ∧ taken (runLoop I n ps f).2.1 = [] := by
   induction n generalizing ps f with
@@ -406,21 +428,74 @@ theorem runLoop_queue (n : Nat) (ps : PS σ) (f : Bool) :
     cases hc : (examine I ps f).2.2
     · simpa using he'
     · have := ih (examine I ps f).1 false
-      simp [taken_append, this, he']
+      simp [taken_append, this, he', hd]
     · simpa using he'
 
+include hd in
 theorem send_queue (ps : PS σ) (kp : KP) :
     (send I ps kp).1.queue = ps.queue ∧ taken (send I ps kp).2.1 = [] := by
   cases kp with
-  | flush => simpa [send] using runLoop_queue I hq (ps.buffer.length + 1) ps true
+  | flush => simpa [send] using runLoop_queue I hq hd (ps.buffer.length + 1) ps true
   | key k t =>
     simpa [send] using
-      runLoop_queue I hq (ps.buffer.length + 2) { ps with buffer := ps.buffer ++ [.key k t] } false
+      runLoop_queue I hq hd (ps.buffer.length + 2) { ps with buffer := ps.buffer ++ [.key k t] } false
 
+/-- the keys pushed back to the input queue because the application was done -/
+def requeued : List Obs → List KP
+  | [] => []
+  | .requeue ks :: r => ks ++ requeued r
+  | _ :: r => requeued r
+
+omit hq in
+theorem requeued_append (a b : List Obs) : requeued (a ++ b) = requeued a ++ requeued b := by
+  induction a with
+  | nil => rfl
+  | cons x xs ih => cases x <;> simp [requeued, ih]
+
+omit hq in
+theorem exec_requeued (ps : PS σ) (d : Decision) : requeued (exec I ps d).2.1 = [] := by
+  cases d with
+  | idle => simp [exec, requeued]
+  | wait => simp [exec, requeued]
+  | dropOne => cases hb : ps.buffer <;> simp [exec, hb, requeued]
+  | fire b n e =>
+    simp only [exec]
+    cases h : (I.call ps.w ps.queue b (ps.buffer.take n) ps.prev).2.2 <;>
+      simp [callHandler, h, requeued]
+
+/-- **Typeahead after exit**: when handlers do not feed keys, one `send` leaves the input queue
+    as it was except that the keys it pushed back (application done, on a retry) are now at its
+    front, in their order; and after pushing back, the key buffer is empty. -/
+theorem runLoop_requeue (n : Nat) (ps : PS σ) (f : Bool) :
+    (runLoop I n ps f).1.queue = requeued (runLoop I n ps f).2.1 ++ ps.queue ∧
+    (requeued (runLoop I n ps f).2.1 ≠ [] → (runLoop I n ps f).1.buffer = []) := by
+  induction n generalizing ps f with
+  | zero => simp [runLoop, requeued]
+  | succ n ih =>
+    have he := exec_queue I hq { ps with w := (decideOf I ps f).1 } (decideOf I ps f).2
+    have hr := exec_requeued I { ps with w := (decideOf I ps f).1 } (decideOf I ps f).2
+    simp only [runLoop]
+    have he' : (examine I ps f).1.queue = ps.queue := he.1
+    have hr' : requeued (examine I ps f).2.1 = [] := hr
+    cases hc : (examine I ps f).2.2
+    · simp [he', hr']
+    · simp only []
+      split
+      · simp [requeued_append, hr', requeued, he']
+      · have := ih (examine I ps f).1 false
+        have e : requeued ((examine I ps f).2.1 ++ (runLoop I n (examine I ps f).1 false).2.1) =
+            requeued (runLoop I n (examine I ps f).1 false).2.1 := by
+          rw [requeued_append, hr']; rfl
+        simp only [e]
+        rw [this.1, he']
+        exact ⟨rfl, this.2⟩
+    · simp [he', hr']
+
+include hd in
 /-- **Input order**: when handlers do not feed keys and the application is not done, the
     keys taken from the queue (in the order of the log) followed by the keys still queued are
     the queue before — keys are consumed strictly in input order. -/
-theorem queue_order (hd : ∀ w, I.done w = false) (n : Nat) (ps : PS σ)
+theorem queue_order (n : Nat) (ps : PS σ)
     (hr : (processKeys I n ps).2.2 = false) :
     taken (processKeys I n ps).2.1 ++ (processKeys I n ps).1.queue = ps.queue := by
   induction n generalizing ps with
@@ -446,7 +521,7 @@ theorem queue_order (hd : ∀ w, I.done w = false) (n : Nat) (ps : PS σ)
           | none => simp [hg] at hk
           | some p =>
             obtain ⟨kp, q⟩ := p
-            have hs := send_queue I hq { ps with queue := q } kp
+            have hs := send_queue I hq hd { ps with queue := q } kp
             have hgn := (getNext_spec I ps kp q hg).1 (hd ps.w)
             simp only [hg] at hk
             generalize (!kp.isFlush && !kp.isCpr) = plain at hk
